@@ -11,12 +11,16 @@ property iff its base type is a built-in scalar and an edge otherwise.  The adap
 `HashMap`, so rows come in no fixed order: the model uses document order, the statements are
 equalities in that order (hence also permutation / multiset equalities), the driver sorts.
 
-The adapter's own documentation (`adapter/schema.graphql`) says of `implementer`: "Subtypes of this
-vertex type.  If this is not an interface type, this edge is guaranteed to be empty."  The code
-resolves it through `Schema::subtypes`, which includes the type itself (F-27): the documented
-statement is false (`introspect_implementer_documented_false`, every vertex type of every valid
-schema is its own implementer: `implementer_reports_self`); what holds is
-`introspect_implementer_partial`.
+History — F-27 (fixed by a one-line repair in `resolve_vertex_type_implementer_edge`): the
+`implementer` edge used to be resolved through `Schema::subtypes` unfiltered, which includes the type
+itself, so every vertex type was its own implementer although `adapter/schema.graphql` documents
+"Subtypes of this vertex type.  If this is not an interface type, this edge is guaranteed to be
+empty."  This file then carried `introspect_implementer_partial` (documented pairs plus the
+reflexive ones) and the witnesses `implementer_reports_self`,
+`introspect_implementer_documented_false`, `object_type_is_its_own_implementer`; they are no longer
+true of the model, which mirrors the repaired code.  The full documented statement is now
+`introspect_implementer` / `implementer_empty_of_object`; the old behaviour is listed as `fixed` in
+`known_findings.json`, so its return is a VIOLATION.
 -/
 import TrustfallModel.Proofs.SchemaAdapter
 import TrustfallModel.Proofs.SchemaExamples
@@ -89,49 +93,27 @@ theorem introspect_one_of_partial {doc : Doc} {s : Schema} (h : Accepted doc s) 
   refine ⟨_, introspect_one_of h ns, ?_⟩
   exact (oneOf_blocks_perm _ ns hnd).flatMap_right _
 
-/-- **`implementer`, partial** (F-27): the rows are, up to order, one per pair `(t, x)` where `x` is
-`t` itself or lists `t` in its `implements` — the documented relation (strict subtypes; the
-`implements` lists of a valid schema are transitively closed) plus the reflexive pairs. -/
-theorem introspect_implementer_partial {doc : Doc} {s : Schema} (h : Accepted doc s) :
+/-- **`implementer`** (the documented relation, in full): the rows are, up to order, one per pair
+`(t, x)` where `x` lists `t` in its `implements` — the subtypes of `t`, the `implements` lists of a
+valid schema being transitively closed; no reflexive pairs. -/
+theorem introspect_implementer {doc : Doc} {s : Schema} (h : Accepted doc s) :
     ∃ rows, introspect s .implementer = .ok rows ∧
       rows.Perm ((listed doc s.queryType.name).flatMap fun t =>
-        (doc.types.filter (reportsImplementer t)).map (implementerRow t)) ∧
-      ∀ t x, reportsImplementer t x = true ↔ (x.name = t.name ∨ t.name ∈ x.implements) := by
+        (doc.types.filter (isImplementer t)).map (implementerRow t)) ∧
+      ∀ t x, isImplementer t x = true ↔ t.name ∈ x.implements := by
   obtain ⟨rows, h1, h2⟩ := introspect_implementer_perm h.facts
-  exact ⟨rows, h1, h2, reportsImplementer_iff⟩
+  exact ⟨rows, h1, h2, fun t x => by simp [isImplementer]⟩
 
-/-- Every vertex type of every valid schema — interface or not — has a non-empty `implementer` edge. -/
-theorem implementer_reports_self {doc : Doc} {s : Schema} (h : Accepted doc s) {t : TypeDef}
-    (ht : t ∈ doc.types) :
-    ∃ ns, resolveNeighbors s (.vertexType t) "VertexType" "implementer" .other = .ok ns ∧ ns ≠ [] :=
-  SchemaDoc.implementer_reports_self h.facts ht
+/-- "If this is not an interface type, this edge is guaranteed to be empty" (adapter/schema.graphql). -/
+theorem implementer_empty_of_object {doc : Doc} {s : Schema} (h : Accepted doc s) {t : TypeDef}
+    (ht : t ∈ doc.types) (hobj : t.isInterface = false) :
+    resolveNeighbors s (.vertexType t) "VertexType" "implementer" .other = .ok [] :=
+  SchemaDoc.implementer_empty_of_object h.facts ht hobj
 
 section Witness
 open TF.SchemaDoc.Examples
 
-/-- The documented statement "if this is not an interface type, this edge is guaranteed to be empty"
-is false of the code: in `schema { query: Q } type Q { a: A } type A { x: Int }` the object type `A`
-reports `A` (witness replayed against the real adapter by the harness). -/
-theorem introspect_implementer_documented_false :
-    ¬ ∀ (doc : Doc) (s : Schema), Accepted doc s → ∀ t ∈ doc.types, t.isInterface = false →
-        resolveNeighbors s (.vertexType t) "VertexType" "implementer" .other = .ok [] := by
-  intro hall
-  have hacc : accepts small = true := by decide
-  unfold accepts at hacc
-  cases hs : Schema.new small with
-  | panic p => simp [hs] at hacc
-  | ok r =>
-    cases r with
-    | error e => simp [hs] at hacc
-    | ok s =>
-      have ha : Accepted small s := ⟨by decide, hs⟩
-      let tA : TypeDef := { name := "A", isInterface := false, implements := [], fields := [⟨"x", intTy, []⟩] }
-      have hmem : tA ∈ Doc.types small := by simp [small, Doc.types, tyQ, tyA, tA]
-      obtain ⟨ns, h1, h2⟩ := C20.implementer_reports_self ha hmem
-      rw [hall small s ha tA hmem rfl] at h1
-      cases h1; exact h2 rfl
-
-/-- The same on the computed rows: the row `(name = A, implementer = A)` is reported. -/
+/-- Does some row carry the two given string cells? -/
 def hasStrRow (o : Outcome (List Row)) (k1 v1 k2 v2 : String) : Bool :=
   match o with
   | .ok rows => rows.any fun r => r.any (fun c => c.1 == k1 && match c.2 with | .str x => x == v1 | _ => false) &&
@@ -144,8 +126,9 @@ def introspectDoc (doc : Doc) (q : QueryId) : Outcome (List Row) :=
   | .ok (.error _) => .ok []
   | .panic p => .panic p
 
-theorem object_type_is_its_own_implementer :
-    hasStrRow (introspectDoc small .implementer) "name" "A" "implementer" "A" = true := by decide
+/-- After the repair of F-27 the object type `A` is no longer reported as its own implementer. -/
+theorem object_type_has_no_implementer :
+    hasStrRow (introspectDoc small .implementer) "name" "A" "implementer" "A" = false := by decide
 
 /-- Number of rows carrying the two given string cells. -/
 def countStrRows (o : Outcome (List Row)) (k1 v1 k2 v2 : String) : Nat :=
@@ -209,8 +192,7 @@ end TF.C20
 #print axioms TF.C20.introspect_one_of
 #print axioms TF.C20.introspect_one_of_partial
 #print axioms TF.C20.one_of_duplicates_rows
-#print axioms TF.C20.introspect_implementer_partial
-#print axioms TF.C20.implementer_reports_self
-#print axioms TF.C20.introspect_implementer_documented_false
-#print axioms TF.C20.object_type_is_its_own_implementer
+#print axioms TF.C20.introspect_implementer
+#print axioms TF.C20.implementer_empty_of_object
+#print axioms TF.C20.object_type_has_no_implementer
 #print axioms TF.C20.schema_adapter_honest
